@@ -8,7 +8,7 @@ EXPL = ("Decided (progress + conservation): (P-SELECT) in the batch selector the
         "on the break path -- the input is partitioned, nothing dropped or duplicated; (Q-WORKLIST) the selected half is what gets "
         "routed, the remainder is re-examined by the enclosing loop or passed to the insertion rooted at the same bucket, buckets it "
         "reports over-full are OR-ed back into the worklist, which pops exactly the id it examines and stores the new subtree under "
-        "that id; (R-MEMORY-HINT) the available_memory option reaches nothing but the selector's memory argument. NOT decided: "
+        "that id; (Q-PROGRESS) when an over-full bucket is rebuilt from a partial batch, the tree constructor's single-bucket shortcut is disabled while a remainder exists (otherwise re-inserting the remainder recreates the same bucket and the worklist never drains); (R-MEMORY-HINT) the available_memory option reaches nothing but the selector's memory argument. NOT decided: "
         "termination when re-splitting does not shrink (duplicates, C20); time.")
 
 
@@ -17,4 +17,5 @@ def run(ctx):
     ctx.trusted = ['rustc nightly MIR construction', 'roaring select/remove_smallest semantics']
     fr.r_selector(ctx)
     fr.r_worklist(ctx)
+    fr.r_progress(ctx)
     fr.r_memory_only(ctx)
